@@ -19,6 +19,9 @@ def main():
     if args.prop == "_digest-child":
         from dst import selftest
         return selftest.child_main(args.tier_or_spec)
+    if args.prop == "_schedsim-child":
+        from dst.props import c06
+        return c06.child_main(args.tier_or_spec)
     if args.prop == "_resume-child":
         from dst import crashsim
         return crashsim.child_main(args.tier_or_spec)
